@@ -16,7 +16,14 @@ Which binders RenameLocal may rename, and which occurrences go with a binder, is
 the parsed tree (spec/RewritesNames.tla; confirmed per instance by spec/RewritesNamesTrace.tla), never by the checker
 under test: the corpus holds accepted programs that bind one name in several scopes that follow one another
 (corpus/c13/rebind_*.sam); on a tree that rejects one of them it is a rejected program whose verdict every rewrite
-instance must keep."""
+instance must keep.
+corpus/c13/rejected/*.sam are hand-written ILL-TYPED programs (one mistake each, of the kinds the annotation rewrites
+interact with: a bound-violating generic function value under a function-type hint, a bound-violating explicit type
+argument, an under-constrained generic call, a wrong annotation, ...): rejected baselines on which every instance of
+every kind is applied too (the sites come from the typed tree the checker returns whatever it reports; for a generic
+member used as a value the ExplicitTypeArgs site is the member access with the type arguments the checker solved
+from the hint).  A tree that accepts one of them (a check dropped on the inferred path only) flips on the rewrite
+that makes the inferred instantiation explicit."""
 import glob, hashlib, json, os, re, time
 from concurrent.futures import ThreadPoolExecutor
 from vlib import *
@@ -51,7 +58,17 @@ REQUIRED_FEATURES = [
     "name_bound_again_after_scope_closed:lambda_then_lambda",
     "name_bound_again_after_scope_closed:lambda_then_let",
     "name_bound_again_after_scope_closed:let_then_lambda",
+    # a static function of a generic class that re-uses the NAME of a class type parameter for its own one
+    "static_function_type_parameter_named_like_class_type_parameter:same_bound",
+    "static_function_type_parameter_named_like_class_type_parameter:bound_only_on_function",
+    "static_function_type_parameter_named_like_class_type_parameter:bound_only_on_class",
+    "static_function_type_parameter_named_like_class_type_parameter:other_bound",
+    # generic members used as values: type arguments solved from the expected function type
+    "explicit_type_args_sites_on_generic_member_values",
 ]
+# ... and what the hand-written REJECTED corpus must offer (features of the typed tree of ill-typed programs)
+REQUIRED_FEATURES_REJECTED = ["explicit_type_args_sites_on_generic_member_values"]
+REJECTED_DIR = os.path.join(CORPUS_DIR, "rejected")
 EXHAUSTIVE_HIST = 1_000_000      # history numbers of the exhaustive pass start here
 DENSE_CAP_QUICK = 0              # quick tier: Parenthesise / WrapInBlock instances per corpus program (0 = all)
 RENAME_APART_MAX = 80            # steps of a rename-apart history
@@ -89,15 +106,16 @@ HAND = [
 ]
 
 
-def feature_corpus():
-    """corpus/c13/*.sam: hand-written accepted programs; a file is one module `Main`, or several modules
-    introduced by lines `// module: Name` (the entry is the module Main)"""
+def feature_corpus(directory=CORPUS_DIR, origin="corpus:"):
+    """corpus/c13/*.sam: hand-written accepted programs (corpus/c13/rejected/*.sam: ill-typed ones, origin
+    `corpus-rejected:`); a file is one module `Main`, or several modules introduced by lines `// module: Name`
+    (the entry is the module Main)"""
     progs = []
-    for path in sorted(glob.glob(os.path.join(CORPUS_DIR, "*.sam"))):
+    for path in sorted(glob.glob(os.path.join(directory, "*.sam"))):
         text = open(path).read()
         parts = re.split(r"^// module: (\w+)[ \t]*\n", text, flags=re.M)
         srcs = {"Main": text} if len(parts) == 1 else {parts[i]: parts[i + 1] for i in range(1, len(parts), 2)}
-        progs.append({"origin": "corpus:" + os.path.basename(path), "entry": "Main", "sources": srcs, "with_std": True})
+        progs.append({"origin": origin + os.path.basename(path), "entry": "Main", "sources": srcs, "with_std": True})
     return progs
 
 
@@ -145,7 +163,8 @@ def corpus(d, tier):
     write_ndjson(src, feat)
     vh(["rewrite-break", "--in", src, "--out", dst, "--seed", SEED + 1, "--per-program", 1 if tier == "quick" else 4])
     broken += read_ndjson(dst)
-    programs = good + broken
+    # ... and the hand-written ill-typed programs (rejected baselines as they are)
+    programs = good + broken + feature_corpus(REJECTED_DIR, "corpus-rejected:")
     for i, p in enumerate(programs):
         p["id"] = i
         p.setdefault("with_std", True)
@@ -208,13 +227,17 @@ def exhaustive_pass(d, programs, tier, avoid):
     bad = [p for p in programs if p["origin"].startswith("corpus:") and "+break:" in p["origin"]]
     dense = [k for k in KINDS if k not in SPARSE_KINDS]
     cap = DENSE_CAP_QUICK if tier == "quick" else 0
-    passes = [(ok, SPARSE_KINDS, 0, "exs"), (ok, dense, cap, "exd"), (bad, SPARSE_KINDS, 0, "exbs")]
+    rej = [p for p in programs if p["origin"].startswith("corpus-rejected:")]
+    passes = [(ok, SPARSE_KINDS, 0, "exs"), (ok, dense, cap, "exd"), (bad, SPARSE_KINDS, 0, "exbs"),
+              (rej, SPARSE_KINDS, 0, "exrs"), (rej, dense, cap, "exrd")]
     if tier != "quick":
         passes.append((bad, dense, 0, "exbd"))
     steps = []
     census = {"programs": len(ok), "rejected_variants": len(bad), "features": {},
               "kinds": {k: {"found": 0, "attempted": 0, "applied": 0, "discarded": 0, "discard_reasons": {}} for k in KINDS},
               "kinds_on_rejected_variants": {k: {"found": 0, "attempted": 0, "applied": 0, "discarded": 0, "discard_reasons": {}} for k in KINDS},
+              "rejected_corpus_programs": len(rej), "features_of_rejected_corpus": {},
+              "kinds_on_rejected_corpus": {k: {"found": 0, "attempted": 0, "applied": 0, "discarded": 0, "discard_reasons": {}} for k in KINDS},
               "per_expression_kinds_cap_per_program": cap}
     # ... and per corpus program one history that renames apart, step after step, every binder whose name is
     # bound more than once in its module (thorough: also on the variants with an injected error)
@@ -238,11 +261,13 @@ def exhaustive_pass(d, programs, tier, avoid):
         for x in st:
             x["hist"] += EXHAUSTIVE_HIST * (n + 1)
         steps += st
-        into = census["kinds"] if progs is ok else census["kinds_on_rejected_variants"]
+        into = census["kinds"] if progs is ok else census["kinds_on_rejected_corpus"] if progs is rej else census["kinds_on_rejected_variants"]
         for k in kinds:
             into[k] = c["kinds"][k]
         if tag == "exs":
             census["features"] = c["features"]
+        if tag == "exrs":
+            census["features_of_rejected_corpus"] = c["features"]
     return steps, census
 
 
@@ -548,6 +573,10 @@ def run(tier):
     corpus_rejected = sorted({corpus_ids[h["pid"]] for h in hists if h["pid"] in corpus_ids and h["rows"][0]["front"] != "accepted"})
     for o in corpus_rejected:
         log(f"[c13] note: feature-corpus program {o} is not accepted by this tree")
+    rej_ids = {p["id"]: p["origin"] for p in programs if p["origin"].startswith("corpus-rejected:")}
+    rej_accepted = sorted({rej_ids[h["pid"]] for h in hists if h["pid"] in rej_ids and h["rows"][0]["front"] == "accepted"})
+    for o in rej_accepted:
+        log(f"[c13] note: ill-typed corpus program {o} is accepted by this tree")
     # vacuity (only meaningful when nothing was reported): every kind judged, the features met
     if not fails:
         idle = [k for k in KINDS if judged[k]["verdict_judged"] == 0]
@@ -564,6 +593,14 @@ def run(tier):
         unapplied = [k for k in ("AnnotateLambda", "AnnotateLet", "ExplicitTypeArgs") if ex_census["kinds"][k]["applied"] == 0]
         if unapplied:
             tool_failure(f"vacuous: no instance of {unapplied} on the feature corpus")
+        if not rej_ids:
+            tool_failure(f"vacuous: no ill-typed corpus in {REJECTED_DIR}")
+        missing = [f for f in REQUIRED_FEATURES_REJECTED if not ex_census["features_of_rejected_corpus"].get(f)]
+        if missing:
+            tool_failure(f"vacuous: the ill-typed corpus lacks {missing}")
+        unapplied = [k for k in ("AnnotateLet", "ExplicitTypeArgs") if ex_census["kinds_on_rejected_corpus"][k]["applied"] == 0]
+        if unapplied:
+            tool_failure(f"vacuous: no instance of {unapplied} on the ill-typed corpus")
     fronts = {}
     for h in hists:
         fronts[h["rows"][0]["front"]] = fronts.get(h["rows"][0]["front"], 0) + 1
@@ -583,6 +620,8 @@ def run(tier):
         "per_kind": per_kind,
         "feature_corpus": dict(ex_census, steps=len(ex_steps), files=sorted(corpus_ids.values()),
                                not_accepted_by_this_tree=corpus_rejected,
+                               rejected_corpus_files=sorted(rej_ids.values()),
+                               rejected_corpus_accepted_by_this_tree=rej_accepted,
                                rule="every applicable instance of every kind on each corpus program (the two per-expression "
                                     "kinds capped per program in the quick tier when the cap is non-zero), and every instance of "
                                     "the other kinds on its variants with one injected error; one history of one step each"),
@@ -613,6 +652,8 @@ def run(tier):
                     "whose name takes part in a name clash BY THAT READING (re-use of the name of an enclosing binder) are no instances; "
                     "programs with syntax errors are not rewritten",
                     "a feature-corpus program the tree under test rejects is a rejected program like any other: all its rewrite instances are applied and must keep the verdict",
+                    "the hand-written ill-typed corpus (corpus/c13/rejected) is a population of rejected baselines: every instance of every kind, "
+                    "enumerated on the typed tree the checker returns for them, must keep the verdict; one the tree under test accepts is an accepted program like any other",
                     "behaviour is compared on runs the language defines (Observations!ImplDefined excluded); rejected programs compare the verdict; "
                     "a changed number of diagnostics is reported as drift only"],
                    time.time() - t0, fails)
